@@ -409,6 +409,12 @@ impl VSession {
             .map_err(|e| format!("{:?}", e))
     }
 
+    /// Drops the application's end of a receiving link (as a `Receiver` that is simply
+    /// dropped does): what the peer still sends for the handle can no longer be delivered
+    pub fn drop_receiver_endpoint(&mut self, output_handle: u32) {
+        self.receivers.remove(&output_handle);
+    }
+
     #[allow(clippy::too_many_arguments)]
     pub fn on_incoming_transfer(
         &mut self,
